@@ -94,13 +94,14 @@ class Leaf:
 
 class TGen:
     def __init__(self, ch, allow_bf=True, allow_packed=True, allow_aligned=True, allow_union=True, allow_fp=True, allow_ld=True,
-                 allow_anon=True, allow_ptr=True, max_fields=6, excl=None):
+                 allow_anon=True, allow_ptr=True, max_fields=6, excl=None, force_packed=False):
         self.ch = ch
         self.o = dict(bf=allow_bf, packed=allow_packed, aligned=allow_aligned, union=allow_union, fp=allow_fp, ld=allow_ld, anon=allow_anon, ptr=allow_ptr)
         self.max_fields = max_fields
         self.feat = set()
         self.excl = excl if excl is not None else {}
         self.ntag = 0
+        self.force_packed = force_packed
 
     def scalar(self):
         ch = self.ch
@@ -117,7 +118,7 @@ class TGen:
     def agg(self, depth, tag=None, pref='', top=True):
         ch = self.ch
         kind = 'struct' if (not self.o['union'] or ch.int(0, 4) > 0) else 'union'
-        packed = self.o['packed'] and ch.int(0, 7) == 0
+        packed = self.o['packed'] and (ch.int(0, 7) == 0 or (self.force_packed and top))
         aligned = ch.choice([2, 8, 16, 32]) if (self.o['aligned'] and ch.int(0, 7) == 0) else 0
         fields = []
         n = ch.int(1, self.max_fields)
